@@ -383,6 +383,11 @@ class MuxServer(BaseServer):
     r.dtab = dtab
     st = conn.state
     self.world.on_tdispatch(self, conn, r)
+    prev = st['unanswered'].get(tag)
+    if prev is not None and prev is not r:
+      # the client re-used a tag that is still outstanding here: an honest
+      # server still answers the earlier request as well
+      st.setdefault('shadowed', []).append(prev)
     st['unanswered'][tag] = r
     st['tags'].append(tag)
     st['peak'] = max(st['peak'], len(st['unanswered']))
@@ -408,10 +413,15 @@ class MuxServer(BaseServer):
 
   def reply(self, conn, r, spec):
     st = conn.state
-    if conn.dead or st['unanswered'].get(r.tag) is not r:
+    if conn.dead:
+      return
+    if st['unanswered'].get(r.tag) is r:
+      del st['unanswered'][r.tag]
+    elif r in st.get('shadowed', ()):
+      st['shadowed'].remove(r)
+    else:
       return
     kind = spec.get('kind', 'ok')
-    del st['unanswered'][r.tag]
     r.answered_at = CLOCK.now
     rctx = [(b'k', b'v'), (b'', b'')] if spec.get('rctx') else ()
     if kind == 'nack':
